@@ -3,8 +3,8 @@
    administrator: the definition events it adds, all with the step's date.  Step dates are
    strictly increasing.  The four constructions of the room:
      live    the add_* calls of validate_room_mutation, in order            (Rights.build_from)
-     reload  LOAD_QUERY (every entry list ORDER BY mdate DESC) -> load_json -> load_auth_from_json
-     fresh   RoomNode::read (newest first) -> prepare_room_node on a peer that never saw the room
+     reload  LOAD_QUERY (every entry list ORDER BY mdate ASC, 83dc3ea) -> load_json -> load_auth_from_json
+     fresh   RoomNode::read (oldest first, 83dc3ea) -> prepare_room_node on a peer that never saw the room
      chain   a peer that imports the definition after every step (prepare_room_with_history)
    No proofs here. *)
 From DV Require Export RightsSpec RoomNode.
@@ -24,7 +24,6 @@ Definition events_of (steps : list (list ievent)) : list event := map snd (conca
 Definition live (steps : list (list ievent)) : room * list bool := build_from (empty_room 1%N) (events_of steps).
 
 (* ------------------------------------------------------------------ reload *)
-Definition desc_by {A} (f : A -> Z) (l : list A) : list A := sort_by (fun x => - f x) l.
 
 (* the reload query meets the rows of a list in the order they were written (observed: entries with
    the same date come out in insertion order), before its ORDER BY mdate DESC *)
@@ -35,9 +34,9 @@ Definition hist_users (evs : list ievent) (g : uid) : list user :=
   pk_order (flat_map (fun iev => match snd iev with EvUser g' k d b => if N.eqb g' g then [(fst iev, {| u_key := k; u_date := d; u_enabled := b |})] else [] | _ => [] end) evs).
 Definition hist_uadmins (evs : list ievent) (g : uid) : list user :=
   pk_order (flat_map (fun iev => match snd iev with EvUAdmin g' k d b => if N.eqb g' g then [(fst iev, {| u_key := k; u_date := d; u_enabled := b |})] else [] | _ => [] end) evs).
-(* the stored flags, NOT passed through EntityRight::new *)
+(* the stored flags, passed through EntityRight::new like everywhere else (a68fe8d) *)
 Definition hist_rights_raw (evs : list ievent) (g : uid) : list eright :=
-  pk_order (flat_map (fun iev => match snd iev with EvRight g' e d s a => if N.eqb g' g then [(fst iev, {| r_from := d; r_ent := e; r_self := s; r_all := a |})] else [] | _ => [] end) evs).
+  pk_order (flat_map (fun iev => match snd iev with EvRight g' e d s a => if N.eqb g' g then [(fst iev, mk_right d e s a)] else [] | _ => [] end) evs).
 
 Fixpoint replay_users (l : list user) (us : list user) : option (list user) :=
   match us with
@@ -52,13 +51,13 @@ Fixpoint replay_rights (l : list eright) (rs : list eright) : option (list erigh
 
 (* load_auth_from_json: users, user admins, rights — each list as the query returns it *)
 Definition reload_auth (evs : list ievent) (g : uid) : option auth :=
-  match replay_users [] (desc_by u_date (hist_users evs g)) with
+  match replay_users [] (sort_by u_date (hist_users evs g)) with
   | None => None
   | Some us =>
-      match replay_users [] (desc_by u_date (hist_uadmins evs g)) with
+      match replay_users [] (sort_by u_date (hist_uadmins evs g)) with
       | None => None
       | Some uas =>
-          match replay_rights [] (desc_by r_from (hist_rights_raw evs g)) with
+          match replay_rights [] (sort_by r_from (hist_rights_raw evs g)) with
           | None => None
           | Some rs => Some {| a_id := g; a_users := us; a_rights := rs; a_uadmins := uas |}
           end
@@ -77,7 +76,7 @@ Definition reload (evs : list ievent) : option room :=
   match reload_auths evs (groups (map snd evs)) with
   | None => None
   | Some aus =>
-      match replay_users [] (desc_by u_date (hist_admins evs)) with
+      match replay_users [] (sort_by u_date (hist_admins evs)) with
       | None => None
       | Some ads => Some {| rm_id := 1%N; rm_admins := ads; rm_auths := aus |}
       end
@@ -166,9 +165,9 @@ Definition export (author : key) (steps : list (list ievent)) : roomnode :=
                          rmn_aedges := []; rmn_anodes := []; rmn_gedges := []; rmn_gnodes := [] |} steps.
 
 (* what RoomNode::read returns for the stored rows: the references of a list in primary-key order
-   (dest ascending), sorted by date descending (stable), the rows in the order of their references *)
+   (dest ascending), sorted by date ascending (stable), the rows in the order of their references *)
 Definition rd {A} (idf : A -> uid) (df : A -> Z) (l : list A) : list A :=
-  desc_by df (sort_by (fun x => Z.of_N (idf x)) l).
+  sort_by df (sort_by (fun x => Z.of_N (idf x)) l).
 Definition read_auth_pk (a : anode) : anode :=
   {| an_id := an_id a; an_date := an_date a; an_author := an_author a;
      an_redges := rd e_dest e_date (an_redges a); an_rnodes := rd rn_id rn_date (an_rnodes a);
@@ -279,11 +278,6 @@ Definition spec_C10 (c : c10case) (obs : list Z) : bool :=
 Definition slot := (N * N * N)%type.      (* list tag (0 admins, 1 users, 2 user admins, 3 rights), group, key or entity *)
 Definition slot_eqb (a b : slot) : bool :=
   N.eqb (fst (fst a)) (fst (fst b)) && N.eqb (snd (fst a)) (snd (fst b)) && N.eqb (snd a) (snd b).
-Fixpoint two_dates (l : list (slot * Z)) : bool :=
-  match l with
-  | [] => false
-  | (k, d) :: tl => existsb (fun p => slot_eqb (fst p) k && negb (Z.eqb (snd p) d)) tl || two_dates tl
-  end.
 (* (slot, date) of every entry of the history *)
 Definition entry_keys (evs : list event) : list (slot * Z) :=
   flat_map (fun ev => match ev with
@@ -308,29 +302,15 @@ Fixpoint same_date_differs (l : list ((slot * Z) * Z)) : bool :=
   | (k, d, p) :: tl =>
       existsb (fun q => slot_eqb (fst (fst q)) k && Z.eqb (snd (fst q)) d && negb (Z.eqb (snd q) p)) tl || same_date_differs tl
   end.
-(* a later step creates a group and puts users into it without making its author a user admin of it *)
-Definition new_group_with_users (author : key) (st : list event) : bool :=
-  existsb (fun ev => match ev with
-                     | EvGroup g =>
-                         existsb (fun e2 => match e2 with EvUser g' _ _ _ => N.eqb g g' | _ => false end) st &&
-                         negb (existsb (fun e2 => match e2 with EvUAdmin g' k _ true => N.eqb g g' && N.eqb k author | _ => false end) st)
-                     | _ => false end) st.
 
-(* class 1: some key (or entity) has two entries with different dates in one list: reload and
-            export replay the list newest first into an append-only history
-   class 2: a right stored with mutate_all && !mutate_self: normalised by EntityRight::new live and
-            on import, taken as stored by load_auth_from_json
-   class 3: two entries of one key in one list carry the same date and differ: live the later
-            mutation wins, reload and import order same-date entries by the row ids
-   class 4: a step after the first creates a group together with user entries, its author not being
-            a user admin of the new group: accepted live (room administrator), refused by a peer
-            that already holds the room (prepare_new_auth asks the new group's own user admins) *)
+(* classes 1 (newest-first replay), 2 (right flags not normalised on reload) and 4 (group created
+   together with users by an administrator refused by peers holding the room) were repaired by
+   83dc3ea, a68fe8d and 85b1827 and are no classes any more.
+   class 3: two entries of one key in one list carry the same date and differ: live and on reload the
+            later mutation wins, import orders same-date entries by the row ids *)
 Definition known_C10 (c : c10case) : list Z :=
   let evs := events_of (case_steps c) in
-  (if two_dates (entry_keys evs) then [1] else []) ++
-  (if existsb (fun ev => match ev with EvRight _ _ _ s a => a && negb s | _ => false end) evs then [2] else []) ++
-  (if same_date_differs (combine (entry_keys evs) (map payload (filter (fun ev => match ev with EvGroup _ => false | _ => true end) evs))) then [3] else []) ++
-  (if existsb (fun st => new_group_with_users (case_author c) (map snd st)) (tl (case_steps c)) then [4] else []).
+  (if same_date_differs (combine (entry_keys evs) (map payload (filter (fun ev => match ev with EvGroup _ => false | _ => true end) evs))) then [3] else []).
 
 Definition eval_C10 (c : c10case) (obs : list Z) : list Z :=
   [zb (zlist_eqb (run_C10 c) obs); zb (spec_C10 c obs)] ++ known_C10 c.
